@@ -396,6 +396,9 @@ class ProcessRunner(Runner, ABC):
         self.executor.cancel()
 
     def stop(self) -> None:
+        # Ensure no pending task can still be started once the running
+        # tasks have been stopped.
+        self.executor.cancel()
         self.executor.stop()
 
     def close(self) -> None:
